@@ -41,6 +41,11 @@ impl Dirent {
             if byte == NULL_BYTE {
                 break;
             }
+            // Keep the terminator, a name that doesn't leave room for it can't be represented
+            // (`NAME_MAX` is 255, some file systems hand out longer names anyway)
+            if ind >= name.len() - 1 {
+                return None;
+            }
             name[ind] = byte;
         }
         Some(Self {
